@@ -280,6 +280,19 @@ func (w *zzFailWriter) Write(p []byte) (int, error) {
 	return n, io.ErrClosedPipe
 }
 
+// zzShortWriter accepts at most max bytes per call and reports the short count without an error.
+type zzShortWriter struct {
+	w   io.Writer
+	max int
+}
+
+func (s *zzShortWriter) Write(p []byte) (int, error) {
+	if len(p) > s.max {
+		p = p[:s.max]
+	}
+	return s.w.Write(p)
+}
+
 // C01Large: a large message (70000-byte payload, symbolic at both ends) followed back-to-back by a
 // small one: both read back identical and the reader consumes exactly header+payload each time; and a
 // large message written after another large write FAILED is still exactly header+payload on the wire.
@@ -295,7 +308,13 @@ func C01Large() {
 	fw := &zzFailWriter{room: []int{0, 10, 28, 40000}[sym.Choose("write-fault", 4)]}
 	sym.Assert(m1.Write(fw) != nil, "failing-writer-reported-success")
 	var buf bytes.Buffer
-	sym.Assert(m1.Write(&buf) == nil, "large/write-ok")
+	// the stream may take only part of what it is given (short write without error: legal for a
+	// non-blocking transport, the writer must then offer the rest again)
+	var w io.Writer = &buf
+	if k := []int{0, 1000, 16384, 69999}[sym.Choose("bytes-accepted-per-write", 4)]; k > 0 {
+		w = &zzShortWriter{w: &buf, max: k}
+	}
+	sym.Assert(m1.Write(w) == nil, "large/write-ok")
 	sym.Assert(buf.Len() == 28+n, "large/wire-length")
 	sym.Assert(m2.Write(&buf) == nil, "small/write-ok")
 	wire := buf.Bytes()
